@@ -143,7 +143,7 @@ func RunCheck(o CheckOpts) (*CheckReport, error) {
 				continue
 			}
 			cs = append(cs, &Contract{Key: fn.String(), Name: shortName(fn.String()), PkgPath: m.PkgPath, File: m.File, Line: m.Line,
-				Loops: map[int][]Clause{}, ModAll: true, Props: []string{o.Prop}})
+				Loops: map[int][]Clause{}, ModAll: true, Props: []string{o.Prop}, Shell: true})
 		}
 	}
 	for _, m := range eng.DB.Monitors {
